@@ -1,6 +1,6 @@
 SPECIFICATION Spec
 CONSTANTS
-  Configs <- CfgsAll
+  Configs <- CfgsMix
   Heads <- HeadsPlain
   Levels = {}
   Calls = {}
